@@ -48,6 +48,18 @@ SOURCES["v7"] = dict(SOURCES["v3"], **{"typeshare.toml": '[swift]\ndefault_decor
                                                          '[typescript.type_mappings]\n"u32" = "bigint"\n[python.type_mappings]\n"u32" = "float"\n'})
 
 
+# v8: a workspace in which a name is ambiguous (imported through a facade crate, defined by two providers) next to an ordinary import:
+# whatever the generator decides, it decides the same in every process, so a re-run finds its own output unchanged
+SOURCES["v8"] = {"app/src/lib.rs": "use facade::Shared;\nuse beta::Extra;\n#[typeshare]\npub struct App { pub s: Shared, pub e: Extra }\n",
+                 "alpha/src/lib.rs": "#[typeshare]\npub struct Shared { pub a: u32 }\n",
+                 "beta/src/lib.rs": "#[typeshare]\npub struct Shared { pub b: u32 }\n#[typeshare]\npub struct Extra { pub x: u32 }\n",
+                 "facade/src/lib.rs": "pub use alpha::Shared;\n#[typeshare]\npub struct FacadeOwn { pub f: u32 }\n"}
+
+
+# (in single-file mode v8 would put two same-named definitions into one file: the arrival-order finding listed under C06)
+MULTI_ONLY = {"v8"}
+
+
 def set_sources(root, v):
     if os.path.isdir(root):
         shutil.rmtree(root)
@@ -103,6 +115,8 @@ def run(chk):
         base = os.path.join(work, f"{lang}_{mode}")
         src = os.path.join(base, "src")
         for v in SOURCES:
+            if v in MULTI_ONLY and mode != "multi":
+                continue
             set_sources(src, v)
             ref = run_into(os.path.join(base, f"ref_{v}"), src, lang, mode, v in FAILS)
             if v in FAILS:
@@ -114,7 +128,7 @@ def run(chk):
                 continue
             events.append({"ev": "ref", "v": v, "files": {p: f["sha"] for p, f in ref.items()}})
             meta.append(None)
-        hl = maximal if thorough or True else maximal
+        hl = [h for h in maximal if mode == "multi" or not (set(h) & MULTI_ONLY)]
         for hi, h in enumerate(hl):
             out = os.path.join(base, f"h{hi}")
             events.append({"ev": "reset"})
